@@ -305,6 +305,10 @@ func Update(t *rapid.T, f *gen.Func, state []reflect.Value, shape string, o gen.
 			seen[keyString(k)] = true
 			u.Items = append(u.Items, gen.Item(t, f, k, o, fmt.Sprintf("%s.item%d", label, i)))
 		}
+		if o.MixedIDs && rapid.IntRange(0, 4).Draw(t, label+".mixed") == 0 {
+			// a sender's slip: a further item that lost its identifiers
+			u.Items = append(u.Items, gen.Item(t, f, nil, o, label+".idless"))
+		}
 	case PartialNoIDs:
 		u.Partial = true
 		u.Items = []reflect.Value{gen.Item(t, f, nil, o, label+".item")}
